@@ -342,6 +342,14 @@ def run_fit_binding(acc, tier):
                 acc.nontriv(repr((n_iter, P, count, [round(t, 6) for _, _, t in seen_inv])))
                 if len(seen_inv) != n_iter:
                     acc.violation("fit|temperature not updated once per iteration|", f"{len(seen_inv)} updates for {n_iter} iterations", case)
+                # the same algorithm object run a second time (fresh model) must follow the same schedule from T0
+                first = list(seen_inv)
+                del seen_inv[:]
+                algo.run(build_model(spec), ds)
+                acc.transition(n_iter)
+                if [t for _, _, t in seen_inv] != [t for _, _, t in first]:
+                    acc.violation("fit|temperature schedule of a second run of the same algorithm object differs from the first|",
+                                  f"first {[t for _, _, t in first]} second {[t for _, _, t in seen_inv]}", case)
                 if algo.temperature != 1.0:
                     A = algo.algo_parameters["annealing"]["n_iter"]
                     feature = "0 annealing iterations" if A == 0 else ("annealing iterations < n_plateau-1" if A < P - 1 else "regular")
